@@ -39,7 +39,10 @@ RULE = ("as C11 (every op × representation × boundary length, push_tendril adj
         "dropping the pool leaves live=0 with no anomaly (double free, unknown free, bad layout, canary, write "
         "after free); plus the multi-thread family: clones / subtendrils of one Atomic buffer and SendTendrils "
         "spread over 4 threads running random clone/drop/push/slice/pop scripts concurrently, per-thread checksums "
-        "of all bytes after every action compared with a sequential Python replay. non-trivial = at least one "
+        "of all bytes after every action compared with a sequential Python replay; plus C11's family api2 (engine "
+        "tendril2: conversions, comparisons, std trait impls, writers, read_to_tendril, Extend / FromIterator, sink "
+        "helpers over operands in 5 representations): the whole case runs inside one ledger window and must end "
+        "with every block released once and no anomaly (`@ledger=ok`), no panic. non-trivial = at least one "
         "allocation event or a thread case")
 EXPLANATION = ("theorems: WF preserved and no Fault.ub for every op from every reachable state; monitor accepts the "
                "trace; live iff referenced; dropAll leaves nothing; atomic counter under all interleavings")
